@@ -1,6 +1,7 @@
 package main
 
 import (
+	"fmt"
 	"go/ast"
 	"go/token"
 	"go/types"
@@ -68,6 +69,162 @@ func checkC22(c *Ctx) (string, []string) {
 	c.Rule("C22.singleflight", "singleflight keys are an injective rendering of the service ID (fmt.Sprintf(\"%d\", id) / strconv) and the 'shared' result of Do is not used", 1)
 	k := &c22{c: c}
 	k.run()
+
+	c.Rule("C22.worker-inputs", "the per-service workers of the parallel accumulation do not share mutable input: a worker's function (SingleServiceAccumulation) never writes through a slice that aliases a slice of its input (no element store, no append onto it, no in-place sort, no copy into it), or else every slice the per-service copy (CloneForService) hands over is a clone; a shared list that a worker also rewrites makes the outcome depend on goroutine scheduling", 2)
+	{
+		ssaF := c.Fn(accPkg, "SingleServiceAccumulation")
+		clone := c.Fn(accPkg, "SingleServiceAccumulationInput.CloneForService")
+		// (a) fields the clone hands over without cloning
+		shared := map[string]string{}
+		if clone != nil {
+			allInstrs(clone, func(in ssa.Instruction) {
+				st, ok := in.(*ssa.Store)
+				if !ok {
+					return
+				}
+				fa, ok := st.Addr.(*ssa.FieldAddr)
+				if !ok {
+					return
+				}
+				if _, isSlice := st.Val.Type().Underlying().(*types.Slice); !isSlice {
+					return
+				}
+				v := abbr(exprStr(st.Val, robustOpts))
+				if strings.HasPrefix(v, "slices.Clone") || strings.HasPrefix(v, "bytes.Clone") || strings.Contains(v, ".DeepCopy(") || isFreshCopyRender(v) {
+					return
+				}
+				if strings.Contains(v, "p0") {
+					shared[fieldName(fa.X.Type(), fa.Field)] = v
+				}
+			})
+		}
+		// (b) in-place writes of the worker on slices aliasing its input
+		var inPlace []string
+		var pos token.Pos
+		if ssaF != nil {
+			alias := map[ssa.Value]string{}
+			for changed := true; changed; {
+				changed = false
+				mark := func(v ssa.Value, f string) {
+					if _, ok := alias[v]; !ok {
+						alias[v] = f
+						changed = true
+					}
+				}
+				allInstrs(ssaF, func(in ssa.Instruction) {
+					if v, isV := in.(ssa.Value); isV {
+						if _, isSlice := v.Type().Underlying().(*types.Slice); isSlice {
+							if s := exprStr(v, shapeOpts); strings.HasPrefix(s, "p0.") && !strings.ContainsAny(s[3:], ".[( ") {
+								mark(v, s[3:])
+							}
+						}
+					}
+					switch x := in.(type) {
+					case *ssa.UnOp:
+						if a, ok := x.X.(*ssa.Alloc); ok && x.Op == token.MUL {
+							// a local variable that has been assigned an aliasing slice
+							for _, r := range *a.Referrers() {
+								if st, ok := r.(*ssa.Store); ok && st.Addr == ssa.Value(a) {
+									if f, ok := alias[st.Val]; ok {
+										mark(x, f)
+									}
+								}
+							}
+						}
+						if fa, ok := x.X.(*ssa.FieldAddr); ok && x.Op == token.MUL {
+							base := exprStr(fa.X, shapeOpts)
+							if _, isSlice := x.Type().Underlying().(*types.Slice); isSlice && (base == "p0" || base == "cell(p0)" || base == "&cell(p0)" || base == "*cell(p0)") {
+								mark(x, fieldName(fa.X.Type(), fa.Field))
+							}
+						}
+					case *ssa.Field:
+						if _, isSlice := x.Type().Underlying().(*types.Slice); isSlice && x.X == ssa.Value(ssaF.Params[0]) {
+							mark(x, fieldName(x.X.Type(), x.Field))
+						}
+					case *ssa.Slice:
+						if f, ok := alias[x.X]; ok {
+							mark(x, f)
+						}
+					case *ssa.ChangeType:
+						if f, ok := alias[x.X]; ok {
+							mark(x, f)
+						}
+					case *ssa.Phi:
+						for _, e := range x.Edges {
+							if f, ok := alias[e]; ok {
+								mark(x, f)
+							}
+						}
+					case *ssa.Call:
+						if b, ok := x.Call.Value.(*ssa.Builtin); ok && b.Name() == "append" {
+							if f, ok := alias[x.Call.Args[0]]; ok {
+								mark(x, f) // may reuse the same array
+							}
+						}
+					case *ssa.MakeInterface:
+						if f, ok := alias[x.X]; ok {
+							mark(x, f)
+						}
+					}
+				})
+			}
+			allInstrs(ssaF, func(in ssa.Instruction) {
+				switch x := in.(type) {
+				case *ssa.Store:
+					if ia, ok := x.Addr.(*ssa.IndexAddr); ok {
+						if f, ok := alias[ia.X]; ok {
+							inPlace = append(inPlace, "element store into input."+f)
+							pos = x.Pos()
+						}
+					}
+				case *ssa.Call:
+					if b, ok := x.Call.Value.(*ssa.Builtin); ok {
+						switch b.Name() {
+						case "append":
+							if f, ok := alias[x.Call.Args[0]]; ok {
+								inPlace = append(inPlace, "append onto input."+f)
+								pos = x.Pos()
+							}
+						case "copy":
+							if f, ok := alias[x.Call.Args[0]]; ok {
+								inPlace = append(inPlace, "copy into input."+f)
+								pos = x.Pos()
+							}
+						}
+					} else if sc := x.Call.StaticCallee(); sc != nil && len(x.Call.Args) > 0 {
+						n := sc.String()
+						if sc.Origin() != nil {
+							n = sc.Origin().String()
+						}
+						if n == "sort.Slice" || n == "sort.SliceStable" || n == "sort.Sort" || strings.HasPrefix(n, "slices.Sort") || n == "slices.Reverse" {
+							if f, ok := alias[x.Call.Args[0]]; ok {
+								inPlace = append(inPlace, "in-place sort of input."+f)
+								pos = x.Pos()
+							}
+						}
+					}
+				}
+			})
+		}
+		inPlace = uniqSorted(inPlace)
+		bad := ""
+		for _, w := range inPlace {
+			f := w[strings.LastIndex(w, ".")+1:]
+			if v, isShared := shared[f]; isShared {
+				bad = fmt.Sprintf("the per-service copy hands over %s as %s (not a clone) and the worker performs: %s", f, v, strings.Join(inPlace, "; "))
+			}
+		}
+		key := "internal/accumulation · per-service worker input"
+		switch {
+		case bad != "":
+			c.Bad("C22.worker-inputs", key, pos, "%s: workers rewrite one shared list concurrently, the result depends on scheduling", bad)
+		case len(inPlace) > 0:
+			c.OK("C22.worker-inputs", key, pos, "the worker rewrites input slices in place (%s) but each is a clone made for this service", strings.Join(inPlace, "; "))
+		default:
+			c.OK("C22.worker-inputs", key, 0, "the worker never writes through a slice of its input (shared fields: %v)", keysOf(toBoolMap(shared)))
+		}
+		c.Check(clone != nil && ssaF != nil, "C22.worker-inputs", "internal/accumulation · anchors", 0, "CloneForService and SingleServiceAccumulation analysed", "worker or clone function not found")
+	}
 	return "Determinism mechanisms of accumulation, decided statically: (1) AST/type classification of every map range (order-independent body, sorted product, or reviewed commutative consumer), (2) the SenderID sort that makes transfer order independent of map order, (3) SSA lockset + store classification of concurrently executed closures, (4) singleflight key injectivity. Does not decide equality of posterior states (needs execution).",
 		[]string{"calls on the right-hand side of := inside a map loop are pure with respect to iteration order unless they receive an encoder/writer/hash", "sort comparators other than the SenderID one are total orders on the element key (not analysed)"}
 }
@@ -341,4 +498,12 @@ func storeRoot(addr ssa.Value) (ssa.Value, bool) {
 		}
 	}
 	return v, viaIndex
+}
+
+func toBoolMap(m map[string]string) map[string]bool {
+	out := map[string]bool{}
+	for k := range m {
+		out[k] = true
+	}
+	return out
 }
